@@ -90,6 +90,14 @@ def frame_library(gen: int, rng: random.Random, n_unknown: int = 6) -> list[byte
         t = rng.choice([x for x in range(256) if x not in registered])
         payload = bytes(rng.randrange(256) for _ in range(rng.choice([0, 1, 2, 5, 9, 17, 40])))
         frames.append(sockrun.build_frame(gen, 0xB0, 0x80, 0, t, payload))
+    # address bytes are data like any other (frames addressed to another client, addresses that happen to equal the
+    # prefix bytes 0x55 / 0xAA): the socket delivers them all, the API classes do the filtering
+    base = sockrun.rx_catalogue(gen)
+    pre = 2 if gen == 4 else 14
+    for to, frm in [(0x55, 0x80), (0xB0, 0x55), (0x55, 0x55), (0xAA, 0x80), (0x00, 0xFF)]:
+        f = base[rng.randrange(len(base))]
+        _, _, _, mtype, ln = struct.unpack_from(">BBBBH", f, pre)
+        frames.append(sockrun.build_frame(gen, to, frm, 0, mtype, f[pre + 6:pre + 6 + ln]))
     return frames
 
 
